@@ -90,9 +90,12 @@ def depfile_wiring(ctx):
     repo = ctx.repo
     F = _facts(ctx)
     call = F.fn(CC + '._call')
-    mf = F.consts(call, lambda v: v == '-MF')
+    # the flag literals may sit in _call or in a private helper of it
+    mf = [(n, g, b) for g, b in F.frames(call, 0)
+          for n in F.consts(g, lambda v: v == '-MF')]
     r = F.returns(call)
-    ok = bool(mf) and all(param_of(F.control(n, call), 'deps') for n in mf) \
+    ok = bool(mf) and all(param_of(F.control(n, g, b), 'deps')
+                          for n, g, b in mf) \
         and has_const(r, '-MF') and has_const(r, '-MMD') and \
         param_of(r, 'deps')
     ctx.ob(R, 'CcBaseCompiler._call|-MMD -MF deps', ok, call.node,
@@ -231,10 +234,10 @@ def depfile_wiring(ctx):
                    if x.startswith('const:'))]
     # the dash is chosen per include entry (its `optional` field, however
     # the entry is taken apart)
-    ok = bool(dash) and all(has(F.control(n, w), '_includes')
-                            for n in dash) and bool(lits) and all(
-        has_const(e.arg(0), '-') or has_const(e.arg(0), '-include ')
-        for e in lits)
+    ok = all(has(F.control(n, w), '_includes') for n in dash) and \
+        bool(lits) and all(has(e.control(), '_includes') for e in lits) and \
+        any(has_const(e.arg(0), '-') or has_const(e.arg(0), '-include ')
+            for e in lits)
     ctx.ob(R, 'Makefile.write|-include', ok, w.node,
            'optional includes are not written as -include')
     # ninja
